@@ -49,7 +49,10 @@ def check_msg(d, frozen=False):
         return [fail('build-raises', f'{d}: {exc!r}', exc=exc_sig(exc))]
     if not M.is_meta(d):
         try:
+            notime = mido.format_as_string(m, include_time=False)
             s = str(m)
+            if s != f'{notime} time={m.time}' or ' time=' in notime:
+                out.append(fail('format-include-time', f'{m!r}: include_time=False gives {notime!r}, str gives {s!r}', type=t))
             r = mido.Message.from_str(s)
             if not (r == m) or type(r) is not mido.Message or R.same_message(r, {**d, 'data': tuple(d['data'])}
                                                                              if 'data' in d else d):
